@@ -14,7 +14,7 @@ from typing import Dict, List, Optional, Tuple
 import common
 import spec as S
 
-GEN_VERSION = "21"
+GEN_VERSION = "22"
 
 STRUM_DERIVES = ["EnumString", "Display", "AsRefStr", "IntoStaticStr", "VariantNames", "EnumIter", "EnumCount", "FromRepr",
                  "VariantArray", "EnumDiscriminants", "EnumIs", "EnumTryAs", "EnumMessage", "EnumProperty", "EnumTable",
@@ -930,7 +930,8 @@ def generate(tier: str, seed: int) -> List[E]:
     es: List[E] = []
     es += family_strings(rng, 70 if tier == "quick" else 1000, 1)
     es += family_unit_strings(rng, 24 if tier == "quick" else 240, 1)
-    es += family_big(1, [33, 257] if tier == "quick" else [33, 64, 129, 257, 600])
+    # 300 variants: more than 256 *parseable* ones (23-odd of every 257 are disabled), so that one-byte indices wrap
+    es += family_big(1, [33, 300] if tier == "quick" else [33, 64, 129, 257, 300, 600])
     es += family_err_combos(1)
     es += family_case_pairs(1)
     es += family_raw_idents(1)
